@@ -61,7 +61,13 @@ Definition spec_contrib (f : sfield) (vals : vals_t) : list la :=
           if has_ph ws then occ (if b then py_true else py_false)
           else if b then [render_words (sf_name f) ws] else []          (* a flag *)
       | VAtom a => occ (render_atom a)
-      | VList [] => []
+      | VList [] =>
+          (* nothing to join: no value argument, so a plain flag is left out too; inside a template the empty text
+             is substituted like any other (words that become empty vanish) *)
+          match sf_ty f with
+          | TMulti => []
+          | _ => if has_ph ws && negb dots then occ [] else []
+          end
       | VList l =>
           match sf_ty f with
           | TMulti => List.concat (map (fun a => occ (render_atom a)) l)          (* one occurrence per element *)
